@@ -1331,6 +1331,12 @@ def c09_candidates(tier):
     L = Layout(24, [Field("f", T_uint(8), [(0, 12)], None, "rw", raw_attr="#[bits([8..=3, 0..=11], rw)]")], tag="list [8..=3, 0..=11] typed u8 on u24")
     L.fields[0].ranges = [(0, 12)]
     C.append((L, "reversed-range-in-list"))
+    # reversed item with lo == hi + 1 (an "empty" range) hidden in a list whose other items add up
+    for (W, ty, attr, rs) in [(16, T_uint(8), "#[bits([0..=3, 9..=8, 4..=7], rw)]", [(0, 4), (4, 4)]), (32, T_uint(4), "#[bits([1..=0, 4..=7], rw)]", [(4, 4)]),
+                              (8, T_uint(2), "#[bits([0, 3..=2, 5], rw)]", [(0, 1), (5, 1)]), (24, T_uint(6), "#[bits([0..=2, 20..=19, 10..=12], rw)]", [(0, 3), (10, 3)]),
+                              (64, T_int(8), "#[bits([0..=3, 60..=63, 33..=32], rw)]", [(0, 4), (60, 4)])]:
+        L = Layout(W, [Field("f", ty, rs, None, "rw", raw_attr=attr)], tag=f"list with an empty reversed item: {attr} on u{W}")
+        C.append((L, "reversed-empty-range-in-list"))
     # 5. degenerate arrays
     for W in (8, 32):
         L = Layout(W, [Field("f", T_uint(4), [(0, 4)], (1, 4, False), "rw")], tag=f"[u4;1] on u{W}")
@@ -1385,7 +1391,7 @@ def plan_c09(tier, seed):
     cu = Unit("k00000", Lc.decl(), [H.ctl_get(Lc, Lc.fields[0], "C09"), H.ctl_set(Lc, Lc.fields[0], "C09"), H.ctl_oob(Lc, Lc.fields[1], "C09", "get")] + h_sound(Lc, Lc.fields[0], "") + h_sound(Lc, Lc.fields[1], ""),
               {"layout": Lc, "sig": Lc.sig(), "tag": Lc.tag, "valid": True})
     us.append(cu)
-    return Plan(us, title="a declaration compiles iff it fits", macro_profiles=("dev", "release"), accept_is_obligation=True, extra_accept_units=extra, chunk=400,
+    return Plan(us, title="a declaration compiles iff it fits", macro_profiles=("dev", "release"), accept_is_obligation=True, reject_is_obligation=True, extra_accept_units=extra, chunk=400,
                 bounds={"accept direction": "%d rule-valid declarations must compile (concrete run of the macro, both host profiles)" % len(extra),
                         "reject direction": "%d just-outside candidates (type width != bits, a bit >= N on native and arbitrary-int bases for scalars/lists/arrays, stride < width, lo > hi, degenerate arrays): each is either rejected by the macro or its accepted expansion must satisfy the soundness spec S1..S5 for ALL inputs (solver)" % len(cands),
                         "host profiles": "the macro is built dev-style and release-style ([profile.dev.build-override] overflow-checks=false, debug-assertions=false)",
@@ -1616,7 +1622,7 @@ def plan_c10(tier, seed):
     us.append(Unit("k00000", ec.decl(), [h, h_enum_from_raw(ec)], {"enum": ec, "sig": ec.sig(), "tag": "control enum", "valid": True}))
     us.append(Unit("k00001", en.decl(), [h2], {"enum": en, "sig": en.sig(), "tag": "control enum 2", "valid": True}))
     nvalid = sum(1 for u in us if u.meta["valid"])
-    return Plan(us, title="bitenum validation", macro_profiles=("dev", "release"), accept_is_obligation=True, chunk=300,
+    return Plan(us, title="bitenum validation", macro_profiles=("dev", "release"), accept_is_obligation=True, reject_is_obligation=True, chunk=300,
                 bounds={"candidates": "%d enum declarations (%d rule-valid, must compile; %d rule-invalid, must be rejected or else satisfy the soundness spec): N in {1,2,3,4,8} (+5,7 thorough) x {all values, one missing, single variant, discriminant == 2^N, 2^N+1 variants} x exhaustive in {true,false,omitted,conditional}; cfg-gated variants with/without conditional; storage-class boundaries 9..64; unsupported storage sizes" % (len(us), nvalid, len(us) - nvalid),
                         "decided per accepted enum, for ALL raw values": "declared exhaustive => conversion returns a variant and the unreachable!() arm cannot be reached; declared non-exhaustive => Err is reachable; every variant's raw_value() does not panic and equals its discriminant",
                         "outside": "cfg-gated variants accepted without `conditional` when all of them are active (the accepted enum is sound); non-literal discriminants"},
